@@ -19,7 +19,7 @@ try:
         if sh("git -C %s apply %spatch.diff" % (wt, d)).returncode != 0:
             print(name, "PATCH-DOES-NOT-APPLY"); missed.append(name); continue
         env = dict(ENV, VERIF_REPO=wt, VERIF_OUT=out)
-        c = sh("cd /verif && ./check %s quick" % prop, env=env)
+        c = sh("cd /verif && timeout 1200 ./check %s quick" % prop, env=env)
         ok = c.returncode == 1 and ("VIOLATION property=%s" % prop) in c.stdout
         print("%-45s %s %s" % (name, prop, "CAUGHT" if ok else "MISSED(rc=%d)" % c.returncode), flush=True)
         if not ok:
